@@ -17,6 +17,7 @@ import os
 import sys
 import threading
 import traceback
+import gc
 
 
 class Divergence(Exception):
@@ -89,6 +90,17 @@ class Scheduler(object):
             t.tb = traceback.format_exc()
         finally:
             sys.settrace(None)
+            # finalizers of what this body dropped run HERE, in this thread,
+            # while its scheduling points still count (cyclic collection is
+            # switched off during an execution, see run(): its timing is not
+            # owned by the scheduler)
+            try:
+                t.fn = None
+                gc.collect()
+            except BaseException as e:
+                if t.exc is None:
+                    t.exc = e
+                    t.tb = traceback.format_exc()
             t.done = True
             self.main_sem.release()
 
@@ -147,6 +159,16 @@ class Scheduler(object):
         """Runs all spawned threads to completion under the choice prefix
         (then choice 0).  Returns True when every thread finished."""
         self.active = True
+        gc_was = gc.isenabled()
+        gc.collect()
+        gc.disable()
+        try:
+            return self._run()
+        finally:
+            if gc_was:
+                gc.enable()
+
+    def _run(self):
         i = 0
         npoints = 0
         while True:
@@ -340,6 +362,9 @@ class SchedThreadLock(object):
 
     def release(self):
         self.s.point(("lock.release", self.name))
+        if not self._held:
+            # exactly what threading.Lock does
+            raise RuntimeError("release unlocked lock")
         self._held = False
         self.holder = None
 
